@@ -54,8 +54,9 @@ def longest_if_chain(fn: ast.AST, mentions: str) -> ast.If:
     return best
 
 
-def guard_set(m: Module, node: ast.AST) -> set[str]:
-    return {guard_text(t, p) for t, p in guards_at(m, node)}
+def guard_set(m: Module, node: ast.AST, silent: bool = False) -> set[str]:
+    """silent=True: only the guards whose failure skips the node silently (not those that raise / assert)"""
+    return {guard_text(t, p) for t, p in guards_at(m, node, silent=silent)}
 
 
 def method_calls(fn: ast.AST, attr: str, nested: bool = False):
@@ -117,3 +118,31 @@ def class_methods(c: ast.ClassDef) -> dict[str, ast.FunctionDef]:
         for n in c.body
         if isinstance(n, (ast.FunctionDef, ast.AsyncFunctionDef))
     }
+
+
+class _MemCanon(ast.NodeTransformer):
+    """`x in [a, b]`, `x in (a, b)`, `x in {a, b}`, `x in frozenset({a, b})` all read `x in {a, b}` (sorted)"""
+
+    def visit_Compare(self, node):
+        self.generic_visit(node)
+        if len(node.ops) == 1 and isinstance(node.ops[0], (ast.In, ast.NotIn)):
+            r = node.comparators[0]
+            if isinstance(r, ast.Call) and isinstance(r.func, ast.Name) and r.func.id in ("frozenset", "set", "tuple", "list") and len(r.args) == 1 and not r.keywords:
+                r = r.args[0]
+            if isinstance(r, (ast.List, ast.Tuple, ast.Set)):
+                node.comparators[0] = ast.Set(elts=sorted(r.elts, key=lambda e: ast.unparse(e)))
+        return node
+
+
+def csrc(node_or_text) -> str:
+    """source text with membership containers canonicalised (accepts a node or a text that parses as an expression)"""
+    import copy
+
+    if isinstance(node_or_text, str):
+        try:
+            node = ast.parse(node_or_text, mode="eval").body
+        except SyntaxError:
+            return node_or_text
+    else:
+        node = copy.deepcopy(node_or_text)
+    return ast.unparse(_MemCanon().visit(node))
